@@ -37,6 +37,18 @@ TEXTS = {
         "level_note": "Trusted: T-OPS (which operations sever the graph / are piecewise constant), A-NET, A-UMNN, autograd's own correctness.",
         "technique": "static interprocedural taint analysis (gradient-severing sources to returned-value sinks) + parameter reachability",
     },
+    "C07": {
+        "level_text": "Proof-like for the information-flow half: for every mask, size, direction and parameter value, the conditioner's arguments are shown (by label flow over CouplingTransform.forward/inverse under both unconditional-transform scenarios) to derive only from the identity gather and the context, the identity positions receive the very gathered value when no unconditional transform exists, each split is scattered with the buffer it was gathered with on every path, and the two buffers partition arange(features) by complementary predicates of the same mask. Monotonicity of the elementwise map belongs to C09; elementwise-ness inside the spline bodies is not decided.",
+        "design_ref": "DESIGN.md 1.5, 2.C07",
+        "level_note": "Trusted: index gather/scatter are exact copies (T-OPS), A-NET, A-UMNN. The concrete subclasses' hooks are only checked for completeness and direction flag.",
+        "technique": "static information-flow (taint) analysis with mode scenarios + condition normaliser for the partition predicates",
+    },
+    "C12": {
+        "level_text": "Necessary conditions covering the enumerated row-mixing mechanisms for all batch sizes and inputs: (1) in the evaluation-mode scenario no batch-axis/global reduction of a row-dependent tensor reaches any result or steers non-guard control flow, over all given-rows entry points; (2) masked gather/scatter statements use one mask throughout; (3) permute/reshape merges of pixels into the batch are exactly undone; (4) BatchNorm uses running statistics in evaluation mode. A mixing mechanism outside these (inside a user network) is not seen.",
+        "design_ref": "DESIGN.md 2.C12",
+        "level_note": "Trusted: T-OPS (which operations reduce, over which dim), T-NN eval-mode semantics of nn.BatchNorm1d/Dropout in user networks, A-NET. Definite-error policy: reductions with a non-constant dim are not classified as batch reductions except through the sum_except_batch summary.",
+        "technique": "static taint analysis under a mode scenario + AST pair rules for masks and permute/reshape",
+    },
 }
 
 NOT_CLAIMED = {}
